@@ -31,6 +31,8 @@ ASSUMPTIONS = [
 FOREIGN_OPERANDS = [None, 0, 1.5, "x", "Variable(\"x\")", (1,), [1], {"a": 1}, object(), 3 + 0j, type, b"x"]
 N_VALID = [1, 2, 3, 4, 5, 7, 12, 1.0, 2.0, 3.0, 9.0, 10 ** 6, 1e6, 2 ** 70]
 N_INVALID = [0, -1, -2, -5, 0.0, -0.0, -1.0, -3.0, 0.5, 1.5, 2.000001, -2.5, 1e-9, float("nan"), float("inf"), -float("inf"),
+             math.nextafter(2, 3), math.nextafter(2, 1), math.nextafter(1, 0), math.nextafter(3, 4), 2.9999999999, 3.0000000001, 0.29 * 100,
+             0.1 * 3 * 10 if (0.1 * 3 * 10) != 3 else 3.0000000000000004, 1 + 2 ** -40, 5 - 1e-12, math.nextafter(0, 1), -math.nextafter(1, 2),
              "2", "two", None, Fraction(3), Fraction(1, 2), Decimal(2), 2 + 0j, [2], (2,), {2}]
 BASE_VALID_EXP = [math.e, 2, 10, 0.5, 0.1, 1e-300, 1e300, 1, 1.0, 3, 7.25, 0.9999999, 5e-324, 2.0]
 BASE_VALID_LOG = [b for b in BASE_VALID_EXP if b != 1]
@@ -156,7 +158,9 @@ def check_case(ctx, case):
             n = float(n) if rng.random() < 0.4 else n
             valid = False
         elif r < 0.8:
-            n = rng.choice([1, -1]) * (rng.randint(0, 9) + rng.choice([0.5, 0.25, 1e-7, 0.999999]))
+            n = rng.choice([1, -1]) * (rng.randint(0, 9) + rng.choice([0.5, 0.25, 1e-7, 0.999999, 1e-10, 1e-12, 2.0 ** -45, 1 - 2.0 ** -50]))
+            if float(n).is_integer():
+                n = n + 0.5
             valid = False
         else:
             n = rng.choice(N_INVALID)
